@@ -8,6 +8,7 @@ import LP.Driver.Refs
 import LP.Driver.Roots
 import LP.Driver.Alg
 import LP.Driver.Value
+import LP.Driver.Hist
 import Std.Data.HashMap
 open LP LP.Driver
 
@@ -41,6 +42,7 @@ def checkLine (line : String) : String × String × Verdict :=
         | "roots" => checkRoots op args r
         | "alg" => checkAlg op args r
         | "val" => checkVal op args r
+        | "hist" => checkHist op args r
         | "ugcd" => checkUGcd op args r
         | "refs" => checkRefs args r
         | _ => Verdict.skip s!"unknown family {fam}"
